@@ -30,8 +30,23 @@ Record scn : Type := mkScn {
   sc_ex_price : option (Z * Z * Z * Z);
   sc_ref_price : option (Z * Z);
   sc_uinfo : list (N * uinfo);
-  sc_obase : list (N * N * N)                (* (address id, extra id, bytes outside the Value) *)
+  sc_obase : list (N * N * N);               (* (address id, extra id, bytes outside the Value) *)
+  sc_dedup : bool;                           (* config.deduplicate_explicit_ref_inputs_with_regular_inputs *)
+  sc_xr_ids : list N                         (* UTxO ids that some `xr` op of the scenario registers as reference input *)
 }.
+
+(* explicit reference inputs: bytes of the scripts on fresh outpoints (`x ref`), and (UTxO id, declared size) of the
+   scenario UTxOs registered with `xr` (a later registration of the same id replaces the size) *)
+Definition refs : Type := (N * list (N * N))%type.
+Fixpoint xr_insert (id size : N) (l : list (N * N)) : list (N * N) :=
+  match l with
+  | [] => [(id, size)]
+  | (i, z) :: r => if i =? id then (id, size) :: r else (i, z) :: xr_insert id size r
+  end.
+Definition memN (x : N) (l : list N) : bool := existsb (N.eqb x) l.
+(* the builder learns the script_ref of a spent UTxO only when it is added in UTxO form: the harness adds a UTxO with
+   its own script_ref in address form when an `xr` op registers it and its id is not a multiple of 3 *)
+Definition own_known (sc : scn) (id : N) : bool := negb (memN id (sc_xr_ids sc)) || (id mod 3 =? 0).
 
 Definition lookup_uinfo (sc : scn) (id : N) : uinfo :=
   match find (fun e => fst e =? id) (sc_uinfo sc) with Some e => snd e | None => mkUinfo 0 0 0 0 end.
@@ -66,20 +81,28 @@ Definition ex_fee (sc : scn) (s : state) : result N :=
   end.
 
 (* min_ref_script_fee over the referenced scripts (tx_builder.rs:157-167) *)
-Definition ref_fee (sc : scn) (ref_const : N) (s : state) : result N :=
-  (* get_total_ref_scripts_size keys the sizes by (reference) input: a script_ref on the spent UTxO counts once per
-     input; the harness derives the reference outpoint of a kind-5/6 UTxO from its <refsize>, so equal sizes are one
-     referenced script *)
-  let us := map (fun e => lookup_uinfo sc (fst e)) (s_inputs s) in
-  let own := sumN (map u_ref (filter (fun u => negb (by_reference u)) us)) in
-  let refd := sumN (nodup N.eq_dec (filter (fun x => 0 <? x) (map u_ref (filter by_reference us)))) in
-  let total := own + refd + ref_const in
+Definition ref_fee (sc : scn) (rc : refs) (s : state) : result N :=
+  (* get_total_ref_scripts_size keys the sizes by (reference) input and fails on two different sizes for one input:
+     a script_ref on the spent UTxO (known when it was added in UTxO form) counts once per input; explicit reference
+     inputs count whether or not they are also spent; the harness derives the reference outpoint of a kind-5/6 UTxO from
+     its <refsize>, so equal sizes are one referenced script *)
+  let ins := map (fun e => (fst e, lookup_uinfo sc (fst e))) (s_inputs s) in
+  let own := flat_map (fun iu : N * uinfo =>
+                         if negb (by_reference (snd iu)) && (0 <? u_ref (snd iu)) && own_known sc (fst iu)
+                         then [(fst iu, u_ref (snd iu))] else []) ins in
+  let xr := snd rc in
+  let conflict := existsb (fun o : N * N => existsb (fun x : N * N => (fst x =? fst o) && negb (snd x =? snd o)) xr) own in
+  let xr_extra := filter (fun x : N * N => negb (memN (fst x) (map fst own))) xr in
+  let refd := sumN (nodup N.eq_dec (filter (fun x => 0 <? x) (map (fun iu : N * uinfo => u_ref (snd iu))
+                                                              (filter (fun iu : N * uinfo => by_reference (snd iu)) ins)))) in
+  let total := sumN (map snd own) + sumN (map snd xr_extra) + refd + fst rc in
+  if conflict then Err else
   match sc_ref_price sc with
   | Some (n, d) => z_res (min_ref_script_fee (Z.of_N total) n d)
   | None => if 0 <? total then Err else Ok 0
   end.
 
-Definition env_of (sc : scn) (ref_const k : N) : env :=
+Definition env_of (sc : scn) (ref_const : refs) (k : N) : env :=
   mkEnv (sc_a sc) (sc_b sc) (sc_max_tx sc) (fun _ => k) (lookup_obase sc) (ex_fee sc) (ref_fee sc ref_const).
 
 (* ------------------------------------------------------------------------------------------- *)
@@ -135,7 +158,7 @@ Definition res_eqb (r : result N) (a : option N) : bool :=
   end.
 
 (* K from a fee answer v: v = a * (K + var) + b + ex + ref *)
-Definition calibrate (sc : scn) (ref_const : N) (st : state) (v : N) : option N :=
+Definition calibrate (sc : scn) (ref_const : refs) (st : state) (v : N) : option N :=
   match get_fee_if_set st, ex_fee sc st, ref_fee sc ref_const st with
   | Some f, Ok x, Ok r =>
       let rest := sc_b sc + x + r in
@@ -145,7 +168,7 @@ Definition calibrate (sc : scn) (ref_const : N) (st : state) (v : N) : option N 
   | _, _, _ => None
   end.
 
-Definition fee_answer (sc : scn) (ref_const : N) (st : state) (o : ostate) : result N * ostate :=
+Definition fee_answer (sc : scn) (ref_const : refs) (st : state) (o : ostate) : result N * ostate :=
   match pop6 site_F o with
   | (None, o') => (Err, o')
   | (Some ans, o') =>
@@ -174,7 +197,7 @@ Definition fee_answer (sc : scn) (ref_const : N) (st : state) (o : ostate) : res
       end
   end.
 
-Definition fee_oracle (sc : scn) (ref_const : N) (utxos : list (N * value)) : @oracle ostate :=
+Definition fee_oracle (sc : scn) (ref_const : refs) (utxos : list (N * value)) : @oracle ostate :=
   mkOracle
     (fun st o => fee_answer sc ref_const st o)
     (fun _ o => pop_num6 site_A o)
@@ -191,12 +214,13 @@ Definition fee_oracle (sc : scn) (ref_const : N) (utxos : list (N * value)) : @o
 
 Inductive op6 : Type :=
 | Base (x : op)
+| AuxXr (id size : N)                   (* xr <id> <size>: add_script_reference_input(outpoint of UTxO id, size) *)
 | Aux (tag : N) (n : N).                (* x <tag> <n>: 1 = ref <size> (reference-script bytes), 2 = coll (a collateral
                                           input was added), 0 = the others (only the size of the transaction changes) *)
 
 Record rstate : Type := mkR {
   r_st : state;
-  r_ref : N;                           (* bytes of scripts on the explicit reference inputs *)
+  r_ref : refs;                        (* the explicit reference inputs *)
   r_bal : option (bool * bool);        (* Some: a change computation succeeded and nothing was edited since (the pair, once the
                                           slack / binding figures of the old code's known classes, is now constantly (true, false)) *)
   r_coll : bool;                       (* a collateral input was added *)
@@ -232,7 +256,10 @@ Definition run_op6 (sc : scn) (utxos : list (N * value)) (x : op6) (tape : list 
   match x with
   | Aux tag n =>
       (match tape, sel with [], None => ROk | _, _ => RDesync end,
-       mkR s (if tag =? 1 then r_ref r + n else r_ref r) None (r_coll r || (tag =? 2)) (r_sdh r), 0)
+       mkR s (if tag =? 1 then (fst (r_ref r) + n, snd (r_ref r)) else r_ref r) None (r_coll r || (tag =? 2)) (r_sdh r), 0)
+  | AuxXr id size =>
+      (match tape, sel with [], None => ROk | _, _ => RDesync end,
+       mkR s (fst (r_ref r), xr_insert id size (snd (r_ref r))) None (r_coll r) (r_sdh r), 0)
   | Base (OpChange addr extra) =>
       let res := add_change orc fuel_default addr extra s o in
       (* since the repair (check_fee_after_change) no insufficient fee is excused: slack = true, binding = false *)
@@ -246,9 +273,11 @@ Definition run_op6 (sc : scn) (utxos : list (N * value)) (x : op6) (tape : list 
       let f := finish6 res RBool in
       (fst f, mkR (snd f) (r_ref r) bal (r_coll r) sdh, o_checked (out_orc res))
   | Base OpBuild =>
-      (* build_tx's pre-checks (tx_builder.rs build_tx: Plutus inputs need a script data hash and collateral): they run
+      (* build_tx's pre-checks (tx_builder.rs build_tx: Plutus inputs need a script data hash and collateral; validate_inputs_intersection): they run
          before validate_fee, so nothing is asked of the oracle when they fail *)
-      if has_plutus_input sc s && negb (r_sdh r && r_coll r)
+      if (has_plutus_input sc s && negb (r_sdh r && r_coll r))
+         (* validate_inputs_intersection: an explicit reference input that is also spent, unless the configuration drops it *)
+         || (negb (sc_dedup sc) && existsb (fun e => memN (fst e) (map fst (snd (r_ref r)))) (s_inputs s))
       then (match tape with [] => RErr | _ => RDesync end, r, 0)
       else
         let res := build_tx orc s o in
